@@ -14,7 +14,8 @@
      peek      push_index() | ready.load loop (+ value read)
      len       head.index.load | push_index()                      (is_empty = (len() == 0))
      drop      pop until None | head.block.load | tail.load (assert_eq) | block.next.load (assert non-null) |
-               free(block) | free(next_block) | the field old_block is dropped (freed if Some)
+               free(next_block) | free(block) (locals are dropped in reverse order of declaration) |
+               the field old_block is dropped (freed if Some)
 
    Blocks live in a heap [addr -> option blk]; the allocator action chooses ANY free non-null address
    (argument x of PStep), so a freed address may be issued again: ABA on the tail word, which packs the
@@ -324,11 +325,11 @@ Definition d_next (s : st) : st :=
   let s1 := deref s (cblk (C s)) in
   let n := bnext (blk_at s (cblk (C s))) in
   s_F (s_C s1 (c_pc (c_nx (C s1) n) DFree1)) (f_assert (F s1) (Nat.eqb n 0)).
-Definition d_free1 (s : st) : st := let s1 := hfree s (cblk (C s)) in s_C s1 (c_pc (C s1) DFree2).
-Definition d_free2 (s : st) : st := let s1 := hfree s (cnx (C s)) in s_C s1 (c_pc (C s1) DOld).
+Definition d_free1 (s : st) : st := let s1 := hfree s (cnx (C s)) in s_C s1 (c_pc (C s1) DFree2).
+Definition d_free2 (s : st) : st := let s1 := hfree s (cblk (C s)) in s_C s1 (c_pc (C s1) DOld).
 Definition d_old (s : st) : st :=
   let s0 := if Nat.eqb (oldb (M s)) 0 then s else hfree s (oldb (M s)) in
-  s_C (s_M s0 (m_oldb (M s0) 0)) (c_pc (C s0) CDead).
+  s_G (s_C (s_M s0 (m_oldb (M s0) 0)) (c_pc (C s0) CDead)) (g_lo (G s0) (ghk (G s0))).
 
 Definition api_ok (s : st) : bool :=
   match cp (C s) with CIdle => negb (cdrop (C s)) | _ => false end.
